@@ -314,6 +314,47 @@ func cmdRun(args []string) int {
 		wg.Wait()
 	}
 	runAll(hs, results)
+	// retry pass: a harness whose only trouble is a solver that gave up (a loaded machine) is run again, alone,
+	// with five times the query timeout; the second verdict replaces the first
+	if os.Getenv("VERIF_NORETRY") == "" {
+		for i, r := range results {
+			if r == nil || r.Err != "" {
+				continue
+			}
+			unk, other := 0, 0
+			for _, f := range r.Findings {
+				if f.Kind == "unknown" {
+					unk++
+				} else if f.Kind == "assert" || f.Kind == "panic" {
+					other++
+				}
+			}
+			if unk == 0 || other > 0 {
+				continue
+			}
+			opt := gosym.Options{Seed: seed, Trace: *trace, QueryMs: *queryMs, NoMerge: *noMerge}
+			opt.DeadlineS = *harnessS
+			if opt.DeadlineS == 0 {
+				opt.DeadlineS = 1800
+				if *tier == "thorough" {
+					opt.DeadlineS = 7200
+				}
+			}
+			if opt.QueryMs == 0 {
+				opt.QueryMs = 60000
+				if *tier == "thorough" {
+					opt.QueryMs = 600000
+				}
+			}
+			opt.QueryMs *= 5
+			fmt.Printf("NOTE property=%s harness=%s solver gave up on %d obligation(s); running it again alone with a %d s query timeout\n", prop, r.Name, unk, opt.QueryMs/1000)
+			r2 := runHarness(prog, spkgs, hs[i].fn, hs[i].dir, opt, *dump)
+			r2.Queries += r.Queries
+			r2.SolverS += r.SolverS
+			r2.WallS += r.WallS
+			results[i] = r2
+		}
+	}
 	// second pass: real-zone twins of generic harnesses that produced counterexamples
 	have := map[string]bool{}
 	for _, h := range hs {
@@ -1041,6 +1082,9 @@ func cmdReplay(args []string) int {
 	prop := vec.Prop
 	if prop == "" {
 		prop = filepath.Base(filepath.Dir(args[0]))
+	}
+	if !(len(prop) == 3 && prop[0] == 'C') && strings.HasPrefix(vec.Harness, "VerifC") && len(vec.Harness) > 8 {
+		prop = vec.Harness[5:8] // kept validation vectors: the property is in the harness name
 	}
 	ov, used := buildOverlay(prop)
 	// find the package of the harness by scanning harness sources
